@@ -109,6 +109,8 @@ def run(ctx, rep):
         roots = {flow.base_local(FU, op_place(a)) for a in tsn[0][1]["args"] if op_place(a) and "TreeId" in FU.locals[op_local(a)]}
         okr = bool(roots & flow.backward_slice(FU, [0])["locals"])
     rep.check("C02.b", "roots-used", okr, where=FU.loc(), what="the snapshots' root trees are part of the used set and seed the walk")
+    from rules import errprop
+    errprop.run_strict_readers(ctx, rep, "C02.b", r"^rustic_core::commands::prune::(find_used_blobs|PrunePlan::from_prune_options)$|^rustic_core::repository::Repository::<S>::prune_plan$", "prune's used-blob walk")
     # ---- C02.c -------------------------------------------------------------------------------------
     DP = prog.find1(r"^rustic_core::commands::prune::PrunePlan::decide_packs$")
     st = [(bb, t) for bb, t in DP.calls() if "callee" in t and callee(t).endswith("prune::PrunePack::set_todo")]
